@@ -2,7 +2,9 @@
 //! Naive big-integer arithmetic only; shares no code with decaf377 or ark-ff.
 pub mod consts;
 pub mod curve;
+pub mod divstep;
 pub mod fld;
+pub mod foldfam;
 pub mod group;
 pub mod poly;
 pub mod selfcheck;
